@@ -187,7 +187,7 @@ def pipeline_diag(work, driver, cases, limit=400, tag="pipe"):
     core.run_cases(driver, "run", os.path.join(d, "cases.ndjson"), os.path.join(d, "trace.ndjson"))
     cfg = os.path.join(d, "P.cfg")
     with open(cfg, "w") as fh:
-        fh.write("SPECIFICATION PSpec\nCONSTANTS NSMaxNodes = 9 NSMaxEdges = 14 CBMaxNodes = 14 CBMaxEdges = 30 POMaxNodes = 24 WMMaxNodes = 10 WMMaxEdges = 14 NPMaxAux = 30 BKMaxNodes = 24 ACCUMULATE = FALSE RESET_TREE = TRUE\nPOSTCONDITION TraceAccepted\nCHECK_DEADLOCK FALSE\n")
+        fh.write("SPECIFICATION PSpec\nCONSTANTS NSMaxNodes = 12 NSMaxEdges = 16 CBMaxNodes = 14 CBMaxEdges = 30 POMaxNodes = 24 WMMaxNodes = 10 WMMaxEdges = 14 NPMaxAux = 30 BKMaxNodes = 24 ACCUMULATE = FALSE RESET_TREE = TRUE\nPOSTCONDITION TraceAccepted\nCHECK_DEADLOCK FALSE\n")
     cmd = core.java_cmd(work, d) + ["-workers", "1", "-metadir", os.path.join(d, "meta"), "-noGenerateSpecTE", "-config", cfg,
                                     os.path.join(work.specdir, "PipelineTrace.tla")]
     t0 = time.time()
